@@ -36,8 +36,9 @@ def check(ctx):
             n5 += 1
         fn = px.method("CParser", m)
         # the TYPEID branch stops the specifier loop when a type was already seen
-        tybr = [b for b in ast.walk(fn) if isinstance(b, ast.If) and "TYPEID" in S.unparse(b.test) and "tok.type" in S.unparse(b.test)]
-        ok = any(isinstance(s0, ast.If) and S.unparse(s0.test) == "saw_type" and any(isinstance(x, ast.Break) for x in s0.body) and b.body.index(s0) == 0 for b in tybr for s0 in b.body[:1])
+        tybr = [b for b in ast.walk(fn) if isinstance(b, ast.If) and isinstance(b.test, ast.Compare) and isinstance(b.test.left, ast.Attribute) and b.test.left.attr == "type"
+                and any(isinstance(c_, ast.Constant) and c_.value == "TYPEID" for c_ in b.test.comparators)]
+        ok = any(isinstance(s0, ast.If) and isinstance(s0.test, ast.Name) and any(isinstance(x, ast.Break) for x in s0.body) and b.body.index(s0) == 0 for b in tybr for s0 in b.body[:1])
         ctx.oblige("R-C04.5", f"{m}: a TYPEID after a type specifier ends the specifier list", ok)
         if not ok:
             ctx.violation("R-C04.5", f"typeid-break:{m}", f"{m}: the TYPEID branch does not start with `if saw_type: break`: a typedef name that follows a type specifier is consumed as a second type specifier, so `int T;` can no longer hide the typedef T",
@@ -140,10 +141,12 @@ def check(ctx):
                       label_filter=lambda lab: lab in ("call:_add_identifier", "call:_add_typedef_name", "call:_build_declarations"))
     ctx.require_instances("R-C04.3", 8)
     bd = px.method("CParser", "_build_declarations")
-    sel = [n for n in ast.walk(bd) if isinstance(n, ast.If) and S.unparse(n.test) == "is_typedef" and any(isinstance(c, ast.Call) and getattr(c.func, "attr", "") == "_add_typedef_name" for s in n.body for c in ast.walk(s))]
-    isdef = [n for n in ast.walk(bd) if isinstance(n, ast.Assign) and any(isinstance(t, ast.Name) and t.id == "is_typedef" for t in n.targets)]
+    # the If that chooses between _add_typedef_name (body) and _add_identifier (orelse); its test is a local bound to `'typedef' in spec['storage']`
+    sel = [n for n in ast.walk(bd) if isinstance(n, ast.If) and isinstance(n.test, ast.Name) and any(isinstance(s, ast.Expr) and isinstance(s.value, ast.Call) and getattr(s.value.func, "attr", "") == "_add_typedef_name" for s in n.body)]
+    flagname = sel[0].test.id if len(sel) == 1 else None
+    isdef = [n for n in ast.walk(bd) if isinstance(n, ast.Assign) and any(isinstance(t, ast.Name) and t.id == flagname for t in n.targets)]
     ok = (len(sel) == 1 and any(isinstance(c, ast.Call) and getattr(c.func, "attr", "") == "_add_identifier" for s in sel[0].orelse for c in ast.walk(s))
-          and len(isdef) == 1 and S.unparse(isdef[0].value) == "'typedef' in spec['storage']")
+          and len(isdef) == 1 and S.unparse(isdef[0].value) == f"'typedef' in {bd.args.args[1].arg}['storage']")
     ctx.oblige("R-C04.3", "typedef vs identifier chosen by 'typedef' in spec['storage']", ok)
     if not ok:
         ctx.violation("R-C04.3", "typedef-choice", "_build_declarations must register a name as typedef exactly when 'typedef' is among the storage-class specifiers, and as ordinary identifier otherwise", file=px.rel, function="CParser._build_declarations")
